@@ -744,12 +744,12 @@ func lexSoyDocParam(l *lexer) {
 	l.pos += ast.Pos(len("@param"))
 	switch ch := l.next(); {
 	case ch == '?':
-		if l.next() != ' ' {
+		if !isSpace(l.next()) {
 			return
 		}
 		l.backup()
 		l.emit(itemSoyDocOptionalParam)
-	case ch == ' ':
+	case isSpace(ch): // (a space or a tab)
 		l.backup()
 		l.emit(itemSoyDocParam)
 	default:
